@@ -498,7 +498,7 @@ func TestRoundTrip(t *testing.T) {
 			out = append(out, d)
 		}
 		return out
-	}}, vt.N(250, 5000))
+	}}, vt.N(250, 3000))
 }
 
 var hostileWrite = []writeCase{
